@@ -521,7 +521,7 @@ def r2(ctx, F, rule, sfx):
                 if any(dtab.conj(e.guard, val) for e in events):
                     hits.append(dtab.fmt_env({k_: v_ for k_, v_ in env.items() if v_}))
         return hits
-    heap_mut = [e for e in ip.events if e.body is kb and e.callee and re.search(r'BinaryHeap(::<[^>]*>)?::push$|PeekMut', e.callee)]      # (every replacement pushes; the final drain pops)
+    heap_mut = [e for e in ip.events if e.callee and re.search(r'BinaryHeap(::<[^>]*>)?::push$|PeekMut', e.callee)]      # (every replacement pushes; the final drain pops)
     if not heap_mut:
         raise AnalysisIncomplete('knn: no heap insertion found')
     hits = rows_reaching(heap_mut, {'SELF': True})
